@@ -8,9 +8,10 @@ EXPLANATION = (
     "push of a result lies on a loop whose every iteration re-tests `results.len() >= max_results` after the push and leaves "
     "the loop when it holds — so the cap bounds emitted matches, not examined combinations; (c) KleeneLimits is built from "
     "the engine's two configured fields and those fields are written only by the constructor and the two with_* builders."
+    " The cap test is strict: an event is accumulated only under next_var < max_events."
 )
 DECIDED = ["number of Kleene events kept never exceeds max_kleene_events", "number of matches per completion never exceeds max_enumeration_results, and the cap counts emitted matches",
-           "the limits used are the configured ones"]
+           "the limits used are the configured ones", "the Kleene event cap is not off by one"]
 NOT_DECIDED = ["that every admissible subset is produced", "pairwise distinctness of combinations (ZDD semantics, see C06/C07)"]
 
 S = "varpulis_runtime::sase::"
